@@ -783,6 +783,9 @@ def build_text():
 
 
 def translations():
+    import os as _os
+    import srcguard as _srcguard
+    _srcguard.guard_from_baseline("specs_mindex", _os.environ.get("PYDREX_REPO", "/repo"))   # fail closed on new block-size-like integers
     outdir = sys.argv[1] if len(sys.argv) > 1 and os.path.isdir(sys.argv[1]) else os.path.join(
         os.path.dirname(os.path.dirname(os.path.abspath(__file__))), "coq", "gen")
     path = os.path.join(outdir, "Gen_mindex.v")
